@@ -469,7 +469,7 @@ class SqlImpl(TableImpl):
             query.select += nd.uuids
 
         elif isinstance(nd, verbs.Filter):
-            if query.group_by:
+            if query.group_by or query.having:
                 query.having.extend(nd.predicates)
             else:
                 query.where.extend(nd.predicates)
@@ -483,6 +483,13 @@ class SqlImpl(TableImpl):
                 for name, uid, val in zip(nd.names, nd.uuids, nd.values, strict=True)
             }
             query.group_by.extend(col._uuid for col in query.partition_by if not types.is_const(col.dtype()))
+            if query.partition_by and not query.group_by:
+                # Constant grouping columns do not appear in GROUP BY. The query still
+                # has to behave like a grouped one: no row for an empty input, and a
+                # following `filter` sees the aggregated row.
+                not_empty = ColFn(ops.greater_than, ColFn(ops.count_star), LiteralCol(0))
+                not_empty.ftype(agg_is_window=False)
+                query.having.append(not_empty)
             query.select = [
                 col._uuid for col in query.partition_by if sqa_expr[col._uuid].name not in set(nd.names)
             ] + nd.uuids
